@@ -1208,3 +1208,175 @@ package pipeline
 //@   callee processSequence(e) (ok)
 //@     requires e != nil
 //@     set last_ok := ok
+
+// ---------------------------------------------------------------------------
+// C04 / C01 / C20: Pipeline.Start.  Order and completeness of the start-up: the output
+// (router) is started before the processors, the processors before the input (an input
+// must never hand events to a pipeline that cannot take them), the streamer's heartbeat
+// is started on every start - unconditionally: it is what delivers the time-out event to a
+// processor waiting for the next event of a stream, whatever the configured time-out -
+// and afterwards a decoder is selected (In's precondition).
+
+//@ func (*Pipeline).Start
+//@   option allow-exit yes
+//@   ghost nr int = 0
+//@   ghost ni int = 0
+//@   ghost nst int = 0
+//@   ghost npr int = 0
+//@   requires p.streamer != nil && p.router != nil
+//@   ensures nr == 1 && ni == 1 && nst == 1
+//@   ensures p.decoderType != decoder.AUTO
+//@   ensures p.started
+//@   loop 1 invariant nr == 1 && ni == 0 && nst == 0
+//@   loop 1 invariant forall k :: 0 <= k && k < len(p.Procs) ==> p.Procs[k] != nil && len(p.Procs[k].busyActions) == len(p.Procs[k].actions) && len(p.Procs[k].actionInfos) == len(p.Procs[k].actions)
+//@   callee initProcs()
+//@     requires nr == 0 && ni == 0
+//@   callee Router.Start(params)
+//@     requires nr == 0 && ni == 0 && npr == 0
+//@     preserves Pipeline, processor, *processor
+//@     set nr := nr + 1
+//@   callee processor.start(params, log)
+//@     requires nr == 1 && ni == 0
+//@     preserves Pipeline, processor, *processor
+//@     set npr := npr + 1
+//@   callee InputPlugin.Start(cfg, params)
+//@     requires nr == 1 && ni == 0
+//@     set ni := ni + 1
+//@   callee streamer.start()
+//@     requires recv == p.streamer && nst == 0
+//@     preserves Pipeline
+//@     set nst := nst + 1
+//@   callee New(t, params) (d, e)
+//@     pure
+//@   ghost nmaint int = 0
+//@   ghost nspam int = 0
+//@   ensures nmaint == 1 && nspam == 1
+//@   callee go:maintenance()
+//@     requires recv == p
+//@     set nmaint := nmaint + 1
+//@   callee go:antispammerMaintenance()
+//@     requires recv == p
+//@     set nspam := nspam + 1
+//@   callee go:growProcs()
+//@     requires recv == p && !p.useSpread
+
+// streamer.start / processor.start / Batcher.Start (C04: the flush timer, the time-out
+// heartbeat and the workers exist at all): each start launches its goroutines - the
+// streamer its heartbeat, once; a processor its main loop, once, after every action was
+// started; the batcher one worker per configured worker (and announces exactly that
+// many to the wait group Stop waits on) and one heartbeat (the flush timer).
+
+//@ func (*streamer).start
+//@   ghost ngo int = 0
+//@   ensures ngo == 1
+//@   callee go:heartbeat()
+//@     requires recv == s
+//@     set ngo := ngo + 1
+
+//@ func (*processor).start
+//@   ghost ngo int = 0
+//@   ghost nstarted int = 0
+//@   requires len(p.actionInfos) == len(p.actions) && len(p.busyActions) == len(p.actions)
+//@   ensures ngo == 1 && nstarted == len(p.actions)
+//@   loop 1 invariant ngo == 0 && -1 <= rangeindex && rangeindex < len(p.actions) && nstarted == rangeindex + 1 && len(p.actionInfos) == len(p.actions) && len(p.busyActions) == len(p.actions)
+//@   callee ActionPlugin.Start(cfg, params)
+//@     requires 0 <= rangeindex && rangeindex < len(p.actions) && params.Index == rangeindex
+//@     preserves processor
+//@     set nstarted := nstarted + 1
+//@   callee Named(n) (r)
+//@     pure
+//@   callee go:process()
+//@     requires recv == p && nstarted == len(p.actions)
+//@     requires len(p.busyActions) == len(p.actions) && len(p.actionInfos) == len(p.actions)
+//@     set ngo := ngo + 1
+
+//@ func (*Batcher).Start
+//@   ghost nw int = 0
+//@   ghost nhb int = 0
+//@   ghost nadd int = 0
+//@   requires b.opts.Workers >= 0
+//@   ensures nw == b.opts.Workers && nhb == 1 && nadd == b.opts.Workers
+//@   loop 1 invariant 0 <= i && i <= b.opts.Workers && nw == i && nhb == 0 && nadd == b.opts.Workers
+//@   callee Add(n)
+//@     requires nw == 0
+//@     pure
+//@     set nadd := nadd + n
+//@   callee go:work()
+//@     requires recv == b
+//@     set nw := nw + 1
+//@   callee go:heartbeat()
+//@     requires recv == b
+//@     set nhb := nhb + 1
+
+// The processor's three per-action tables (actions, actionInfos, busyActions) have one
+// entry per action: established by newProcessor (all empty), kept by AddActionPlugin (one
+// entry appended to each), hence true of every processor newProc / initProcs build - this
+// is the precondition of process / doActions / Propagate, proved here rather than assumed.
+
+//@ func newProcessor
+//@   pure
+//@   ensures result != nil && fresh(result)
+//@   ensures len(result.actions) == 0 && len(result.actionInfos) == 0 && len(result.busyActions) == 0 && result.busyActionsTotal == 0
+//@   ensures result.streamer == streamer && result.router == router
+//@   callee newActionWatcher(id) (w)
+//@     pure
+
+//@ func (*processor).AddActionPlugin
+//@   option allow-panic yes
+//@   requires info != nil
+//@   preserves Pipeline, Router, streamer
+//@   ensures p.streamer == old(p.streamer) && p.router == old(p.router)
+//@   ensures len(p.actions) == old(len(p.actions)) + 1 && len(p.actionInfos) == old(len(p.actionInfos)) + 1 && len(p.busyActions) == old(len(p.busyActions)) + 1
+//@   ensures !p.busyActions[len(p.busyActions) - 1]
+
+//@ func (*Pipeline).newProc
+//@   option allow-panic yes
+//@   ensures result != nil && fresh(result)
+//@   ensures len(result.busyActions) == len(result.actions) && len(result.actionInfos) == len(result.actions)
+//@   ensures result.streamer == p.streamer && result.router == p.router
+//@   loop 1 invariant proc != nil
+//@   loop 1 invariant len(proc.busyActions) == len(proc.actions) && len(proc.actionInfos) == len(proc.actions)
+//@   loop 1 invariant proc.streamer == p.streamer
+//@   loop 1 invariant proc.router == p.router
+//@   callee Factory() (pl, cfg)
+//@     pure
+//@   callee Itoa(i) (r)
+//@     pure
+
+//@ func (*Pipeline).initProcs
+//@   option allow-panic yes
+//@   ensures forall k :: 0 <= k && k < len(p.Procs) ==> p.Procs[k] != nil && len(p.Procs[k].busyActions) == len(p.Procs[k].actions) && len(p.Procs[k].actionInfos) == len(p.Procs[k].actions)
+//@   ensures p.router == old(p.router) && p.streamer == old(p.streamer) && p.input == old(p.input) && p.decoderType == old(p.decoderType) && p.useSpread == old(p.useSpread)
+//@   loop 1 invariant 0 <= i && len(p.Procs) == i && p.router == old(p.router) && p.streamer == old(p.streamer) && p.input == old(p.input) && p.decoderType == old(p.decoderType) && p.useSpread == old(p.useSpread)
+//@   loop 1 invariant forall k :: 0 <= k && k < len(p.Procs) ==> p.Procs[k] != nil && len(p.Procs[k].busyActions) == len(p.Procs[k].actions) && len(p.Procs[k].actionInfos) == len(p.Procs[k].actions)
+//@   callee GOMAXPROCS(n) (r)
+//@     pure
+//@     ensures r >= 1
+//@   callee newProc(id) (r)
+//@     pure
+//@   callee NewInt32(v) (r)
+//@     pure
+//@     ensures r != nil && fresh(r)
+
+// expandProcs (C04 / C05: processors added while the pipeline runs): every added
+// processor is built by newProc (tables consistent), listed, and started.
+
+//@ func (*Pipeline).expandProcs
+//@   option allow-panic yes
+//@   ghost nnew int = 0
+//@   ghost nstart int = 0
+//@   requires len(p.Procs) >= 1 && (forall k :: 0 <= k && k < len(p.Procs) ==> p.Procs[k] != nil)
+//@   ensures nnew == nstart
+//@   loop 1 invariant nnew == nstart && 1 <= from && from <= len(p.Procs) && (forall k :: 0 <= k && k < len(p.Procs) ==> p.Procs[k] != nil)
+//@   callee Load() (r)
+//@     pure
+//@     ensures 1 <= r && r <= len(p.Procs)
+//@   callee Swap(v) (r)
+//@     pure
+//@   callee newProc(id) (r)
+//@     pure
+//@     set nnew := nnew + 1
+//@   callee processor.start(params, log)
+//@     requires nnew == nstart + 1
+//@     preserves Pipeline, processor, *processor
+//@     set nstart := nstart + 1
